@@ -210,7 +210,8 @@ type c12FlowCase struct {
 	Scope    string `json:"scope"`    // requested scope list
 	Audience string `json:"audience"` // requested audience list
 	AudStrat string `json:"aud_strategy"`
-	Consent  string `json:"consent,omitempty"` // "" = everything requested is granted | partial = only the first scope and the first audience
+	Consent  string `json:"consent,omitempty"` // "" = everything requested is granted | partial = only the first scope and the first audience | scopes-only = every scope, no audience
+	JWT      bool   `json:"jwt_access_tokens,omitempty"`
 }
 
 var c12Flows = []string{"code", "implicit", "hyb-idt", "hyb-tok", "hyb-all", "client_credentials", "password", "device", "par", "jwt-bearer", "jwt-bearer-key-without-scopes", "refresh", "device-poll-smuggle", "code-redeem-smuggle"}
@@ -219,7 +220,7 @@ var c12AudFamilies = []string{"", "https://api.example/a", "https://api.example/
 
 func c12RunFlow(c c12FlowCase, res *WRes) {
 	orig := c
-	w := NewWorld(Profile{ScopeStrategy: c.Strategy, AudStrategy: c.AudStrat, RefreshScopes: []string{}})
+	w := NewWorld(Profile{ScopeStrategy: c.Strategy, AudStrategy: c.AudStrat, RefreshScopes: []string{}, JWTAccess: c.JWT})
 	reg := append(c05ClientScopes(c.Strategy), "openid")
 	cl := w.AddClient("C", "secret-C", false)
 	cl.Scopes = reg
@@ -287,6 +288,11 @@ func c12RunFlow(c c12FlowCase, res *WRes) {
 		}
 		aopt.GrantScopes, aopt.GrantAud = first, first
 		grantedScopes, grantedAud = first(reqScopes), first(reqAud)
+	}
+	if c.Consent == "scopes-only" {
+		// the resource owner consents to every scope and to no audience at all
+		aopt.GrantAud = func([]string) []string { return nil }
+		grantedAud = nil
 	}
 	authz := func(rt string, extraScope string) *Obs {
 		p := url.Values{"client_id": {"C"}, "redirect_uri": {"https://C.example/cb"}, "state": {"state-12345678"}, "response_type": {rt}, "nonce": {"nonce-12345678"}}
@@ -523,6 +529,29 @@ func c12RunFlow(c c12FlowCase, res *WRes) {
 				viol("C12/token-carries-ungranted-audience/flow="+c.Flow+"/consent="+c.Consent, fmt.Sprintf("token from flow %s carries audience %v that was not granted (%v)", c.Flow, a, grantedAud), "subset of granted", io.JSON)
 			}
 		}
+		// a JWT access token names scope and audience itself (read offline by resource servers)
+		if js, ja, isJWT := jwtAccessClaims(t); isJWT {
+			for _, s := range js {
+				if !allowed[s] {
+					viol("C12/jwt-token-names-ungranted-scope/flow="+c.Flow+"/consent="+c.Consent, fmt.Sprintf("the JWT access token from flow %s names scope %q that was not granted (%v)", c.Flow, s, grantedScopes), "subset of granted", js)
+				}
+			}
+			for _, a := range ja {
+				ok := false
+				for _, r := range grantedAud {
+					if r == a {
+						ok = true
+					}
+				}
+				if c.Flow == "jwt-bearer" && a == TokenURL {
+					ok = true
+				}
+				if !ok {
+					viol("C12/jwt-token-names-ungranted-audience/flow="+c.Flow+"/consent="+c.Consent, fmt.Sprintf("the JWT access token from flow %s names audience %q that was not granted (%v)", c.Flow, a, grantedAud), "subset of granted", ja)
+				}
+			}
+			res.note("jwt-token-claims-checked")
+		}
 		res.note("token-payload-checked")
 	}
 }
@@ -539,19 +568,22 @@ func init() {
 		return c12StratRun(j), nil
 	})
 	registerWorker("c12flow", func(arg json.RawMessage) (any, error) {
-		var j struct{ Flow, Strategy, AudStrat string }
+		var j struct {
+			Flow, Strategy, AudStrat string
+			JWT                      bool
+		}
 		if err := json.Unmarshal(arg, &j); err != nil {
 			return nil, err
 		}
 		res := &WRes{}
 		consents := []string{""}
 		if j.Flow == "code" || j.Flow == "implicit" || strings.HasPrefix(j.Flow, "hyb") || j.Flow == "par" {
-			consents = []string{"", "partial"}
+			consents = []string{"", "partial", "scopes-only"}
 		}
 		for _, sc := range c12ScopeFamilies {
 			for _, au := range c12AudFamilies {
 				for _, cs := range consents {
-					c := c12FlowCase{Flow: j.Flow, Strategy: j.Strategy, Scope: sc, Audience: au, AudStrat: j.AudStrat, Consent: cs}
+					c := c12FlowCase{Flow: j.Flow, Strategy: j.Strategy, Scope: sc, Audience: au, AudStrat: j.AudStrat, Consent: cs, JWT: j.JWT}
 					c12RunFlow(c, res)
 					res.Evals++
 					res.distinct(fmt.Sprintf("%+v", c))
@@ -634,7 +666,7 @@ func init() {
 		}
 		jobs = append(jobs, c12StratJob{Strategy: "audience"})
 		r.Bounds = map[string]any{"segment_alphabet": c12Symbols, "max_segments": maxSeg, "strings": len(c12Strings(maxSeg)), "audience_urls": len(c12AudURLs()),
-			"flows": c12Flows, "scope_families": c12ScopeFamilies, "audience_families": c12AudFamilies, "strategies": []string{"exact", "wildcard", "hierarchic"}, "audience_strategies": []string{"default", "exact"}, "consent": "full, and partial (first scope + first audience only) for the authorization-endpoint flows; every refresh token obtained is refreshed once and the new tokens are checked too"}
+			"flows": c12Flows, "scope_families": c12ScopeFamilies, "audience_families": c12AudFamilies, "strategies": []string{"exact", "wildcard", "hierarchic"}, "audience_strategies": []string{"default", "exact"}, "access_tokens": "opaque under every strategy; JWT (claims decoded) under the hierarchic one", "consent": "full, partial (first scope + first audience only) and scopes-only (every scope, no audience) for the authorization-endpoint flows; every refresh token obtained is refreshed once and the new tokens are checked too"}
 		r.Rule = "part 1: all (registered, requested) pairs of dotted strings over the segment alphabet up to max_segments, two-sided against the documented semantics (plus a fixed sub-grid of 2-element haystacks), all pairs of the audience URL grid; part 2: every flow x scope strategy x audience strategy x requested scope family x requested audience family on a fresh provider, one-sided (uncovered => nothing issued; token scope/aud within granted); distinct = distinct matching pairs + distinct flow cases"
 		r.Assumptions = []string{"documented semantics as transcribed in refstrat.go; empty segments absorbed by a trailing wildcard and host-case differences are don't-care"}
 		res := r.Pool.Do("c12strat", jobs, r.Deadline)
@@ -645,7 +677,11 @@ func init() {
 		for _, fl := range c12Flows {
 			for _, st := range []string{"exact", "wildcard", "hierarchic"} {
 				for _, as := range []string{"", "exact"} {
-					fj = append(fj, map[string]string{"Flow": fl, "Strategy": st, "AudStrat": as})
+					fj = append(fj, map[string]any{"Flow": fl, "Strategy": st, "AudStrat": as, "JWT": false})
+					if st == "hierarchic" {
+						// JWT access tokens: the claims the token names itself are held to the same bound
+						fj = append(fj, map[string]any{"Flow": fl, "Strategy": st, "AudStrat": as, "JWT": true})
+					}
 				}
 			}
 		}
